@@ -9,7 +9,7 @@ def dataHasGhost : List (String × Bool) := [("I_R", false), ("divU", true), ("g
 def chk2pltNameLists : List (List String) := [["x_velocity", "y_velocity", "z_velocity", "density"], ["rhoh", "temp", "RhoRT"], ["gradpx", "gradpy", "gradpz"]]
 def chefCookbook : List (String × Option String) := [("HRR", some "heat_release_rate"), ("ENT", some "enthalpy_mass"), ("SRi", some "net_production_rates"), ("SDi", some "mix_diff_coeffs_mass"), ("RRi", some "net_rates_of_progress"), ("user", none)]
 def chefCookfields : List (String × String) := [("HRR", "HeatRelease"), ("ENT", "Enthalpy"), ("SRi", "IRm"), ("RRi", "R"), ("SDi", "DI")]
-def swallowedWriteSites : List (String × String × String) := [("amr_kitchen/combine/combine.py", "rewrite_level_header", "write")]
+def swallowedWriteSites : List (String × String × String) := []
 def unorderedPoolCalls : List (String × String) := [("amr_kitchen/whip/cli.py", "main")]
 def nonFortranReshapes : List (String × String × String) := []
 
